@@ -3,7 +3,10 @@ G: TLC enumerates the /Contents and /ByteRange edit families (spec/SigEdits.tla)
    flips one bit at every (thorough, files <= 60 KB) / a seeded sample (quick) of the offsets inside the signed ranges of
    every signature of the real signed samples and of five synthetic, genuinely valid documents, applies the edit
    families, and runs the real api.ValidateSignaturesRaw on every variant.
-V: TLC judges every record against spec/SigTrace.tla (Literal + Detect)."""
+V: TLC judges every record against spec/SigTrace.tla (Literal + Detect).
+H: TLC enumerates validation histories (spec/SigHist.tla: profile x size class of the signed ranges x sequences of genuine and
+   tampered equal-length documents); harness/cmd/sig validates the files of a history consecutively in one process; TLC
+   (spec/SigHistTrace.tla) judges every step on its own: a tampered file is never valid whatever was validated before."""
 import json, os, re, shutil
 import vlib
 
@@ -90,6 +93,58 @@ def run(ctx):
             validated += len(rows)
             ev.tlc(res, "SigTrace.cfg")
             break
+        # ---- validation histories: consecutive validations in ONE process (genuine / tampered files, small and > 1 MiB) ----
+        hcases = os.path.join(d, "hist.ndjson")
+        hcfg = "SigHist_quick.cfg" if ctx.quick else "SigHist_thorough.cfg"
+        res = vlib.run_tlc("SigHist", hcfg, workers=min(4, vlib.NCPU), timeout=600, payloads={"HIST": hcases}, seed=ctx.seed)
+        if res.violated:
+            raise vlib.HarnessError("SigHist violates its own invariant %s" % res.violated)
+        nhist = res.payload_counts.get("HIST", 0)
+        if nhist == 0:
+            raise vlib.HarnessError("TLC produced no histories")
+        hrec = os.path.join(d, "hrec", "records.ndjson")
+        os.makedirs(os.path.dirname(hrec))
+        p = vlib.sh([binp, "c27hist", "--cases", hcases, "--out", hrec], timeout=3000, env=dict(os.environ, TMPDIR=d))
+        hsumm = _summary(p)
+        if hsumm["histories"] != nhist:
+            raise vlib.HarnessError("history executor consumed %d of %d histories" % (hsumm["histories"], nhist))
+        hrows = vlib.read_ndjson(hrec)
+        hall = hrows
+        hjudged = 0
+        while True:
+            res = vlib.run_tlc("SigHistTrace", "SigHistTrace.cfg", files=[hrec], workers=1, timeout=1800, heap="8g")
+            if res.violated == "RecordOK":
+                k = _idx(res)
+                r = hrows[k - 1]
+                hist = [x["step"] for x in hrows if x["hid"] == r["hid"] and x["idx"] <= r["idx"]]
+                same = lambda x: (x["kind"], x["size"], x["idx"] > 1) == (r["kind"], r["size"], r["idx"] > 1) and x["tampered"]
+                n_same = sum(1 for x in hrows if same(x))
+                ctx.report("claim-after-history|%s|%s|%s" % (r["kind"], r["size"], "first" if r["idx"] == 1 else "later"),
+                           "history %s of %s (%s signed ranges, %d signed bytes; validated immediately before in the same process: %s): the tampered file "
+                           "%s (bit flipped at offset %d) is reported status=%s reason=%s docModified=%s  [first of %d tampered steps of this kind]"
+                           % ("->".join(hist), r["kind"], r["size"], r["b"] + r["d"], r["prev"], r["step"], r["off"], r["status"], r["reason"],
+                              r["docmod"], n_same), {"history": hist, "record": r})
+                hjudged += 1
+                hrows = [x for x in hrows if not same(x)]
+                if not hrows or len(ctx.violations) >= 16:
+                    break
+                vlib.write_ndjson(hrec, hrows)
+                continue
+            if res.violated == "FixtureOK":
+                raise vlib.HarnessError("%s failed on record %s" % (res.violated, json.dumps(hrows[_idx(res) - 1])))
+            if not res.ok:
+                raise vlib.HarnessError("SigHistTrace did not accept the records: %s\n%s" % (res.violated, res.out[-2000:]))
+            hjudged += len(hrows)
+            ev.tlc(res, "SigHistTrace.cfg")
+            break
+        validated += hjudged
+        # non-vacuity: in every profile and size class some genuine step is reported valid
+        classes = set((r["kind"], r["size"]) for r in hall)
+        valid_classes = set((r["kind"], r["size"]) for r in hall if not r["tampered"] and r["status"] == "valid")
+        if classes - valid_classes:
+            raise vlib.HarnessError("no genuine step reported valid for %s" % sorted(classes - valid_classes))
+        hist_nontrivial = set((r["kind"], r["size"], r["hid"], r["idx"]) for r in hall if r["tampered"] and r["idx"] > 1)
+        ev.sample({"history": [x["step"] for x in hall if x["hid"] == hall[-1]["hid"]], "last_step": hall[-1]})
         # coverage accounting (measured)
         sens = set((r["doc"], r["sig"]) for r in all_rows if r["kind"] == "probe" and (r["status"] == "invalid" or r["docmod"] == "true"))
         sigs = set((r["doc"], r["sig"]) for r in all_rows)
@@ -109,12 +164,17 @@ def run(ctx):
                   next((x for x in all_rows if x["kind"] == "brval"), None)):
             if r:
                 ev.sample(r)
-        ev.cov(evaluations=len(all_rows), distinct_nontrivial=len(nontrivial),
+        ev.cov(evaluations=len(all_rows) + len(hall), distinct_nontrivial=len(nontrivial) + len(hist_nontrivial),
+               histories=nhist, history_steps=hsumm["steps"], history_tampered_steps=hsumm["tampered_steps"],
+               history_steps_over_1MiB=hsumm["large_steps"], history_tampered_steps_after_another_validation=len(hist_nontrivial),
+               history_exec_s=round(hsumm["exec_s"], 1),
                rule="one record per (document, signature, tampering): single-bit flips at offsets inside the signed ranges "
                     "(thorough: every covered offset of documents <= 60 KB, CPU-budgeted stride otherwise; quick: seeded sample + "
                     "range boundaries), hex-digit value/case edits of /Contents by region and /ByteRange value shifts from TLC "
                     "(SigEdits.tla); non-trivial = distinct constrained tamperings of a signature whose untouched verdict is valid / "
-                    "unmodified or which rejects at least one probe (so that an undetected tampering would show)",
+                    "unmodified or which rejects at least one probe (so that an undetected tampering would show); plus validation histories "
+                    "from SigHist.tla (sequences of genuine / tampered, equal-length documents A and B per profile and size class - small and "
+                    "signed ranges > 1 MiB - validated consecutively in one process; non-trivial = tampered steps preceded by another validation)",
                exhaustive=False, records_judged_by_tlc=validated, records_not_rejudged_after_a_report=dropped, edits_from_tlc=nedits,
                signatures=len(sigs), sensitive_signatures=len(sens),
                insensitive_signatures=sorted("%s[%s]" % s for s in sigs - sens),
